@@ -11,18 +11,19 @@ def _mods():
     return ka
 
 
-KEYS = ['k0', 'k1']
+K1 = ('k1', 'k0')       # a raw-keymap key is a tuple; this one even contains the other key
+KEYS = ['k0', K1]
 VALS = ['a', 'b', None]
 
 
 def maps():
     out = [{}]
     for k in KEYS:
-        out = [dict(m, **{k: v}) for m in out for v in VALS] + out
+        out = [dict(list(m.items()) + [(k, v)]) for m in out for v in VALS] + out
     # dedupe
     seen, res = set(), []
     for m in out:
-        t = tuple(sorted(m.items(), key=lambda kv: kv[0]))
+        t = tuple(sorted(m.items(), key=lambda kv: repr(kv[0])))
         if t not in seen:
             seen.add(t)
             res.append(m)
@@ -58,10 +59,10 @@ def overlay(base, top):
     return d
 
 
-OPS = [('load', ()), ('load', ('k0',)), ('load', ('k0', 'k1')), ('load', ('zz',)), ('dump', ()), ('dump', ('k0',)),
-       ('dump', ('k1', 'k0')), ('dump', ('zz',)), ('sync', ()), ('sync', (True,)), ('archived', ()), ('archived', (True,)),
+OPS = [('load', ()), ('load', ('k0',)), ('load', ('k0', K1)), ('load', ('zz',)), ('dump', ()), ('dump', ('k0',)),
+       ('dump', (K1, 'k0')), ('dump', ('zz',)), ('sync', ()), ('sync', (True,)), ('archived', ()), ('archived', (True,)),
        ('archived', (False,)), ('drop', ()), ('getitem', ('k0',)), ('setitem', ('k0', 'b')), ('delitem', ('k0',)),
-       ('pop', ('k0',)), ('clear', ()), ('update', ({'k1': 'a'},))]
+       ('pop', ('k0',)), ('clear', ()), ('update', ({K1: 'a'},)), ('dump', (K1,)), ('load', (K1,))]
 
 
 def expected(op, args, pre):
@@ -129,8 +130,8 @@ def search(limit=None):
                     n += 1
                     bad = judge(op, args, pre, post, out, exc)
                     if bad:
-                        return n, states, {'op': op, 'args': list(args), 'pre': _j(pre), 'post': _j(post), 'returned': repr(out),
-                                           'raised': repr(exc), 'violated': bad}
+                        return n, states, {'op': op, 'args': enc_args(args), 'pre': enc_state(_j(pre)), 'post': enc_state(_j(post)), 'returned': repr(out),
+                                           'raised': repr(exc), 'violated': bad, 'text': 'cache %r, operation %s%r -> %r' % (_j(pre), op, args, _j(post))}
                     if limit and n >= limit:
                         return n, states, None
     return n, states, None
@@ -138,6 +139,31 @@ def search(limit=None):
 
 def _j(s):
     return {k: s[k] for k in ('mem', 'A', 'S')}
+
+
+def enc_key(k):
+    return {'tuple': [enc_key(x) for x in k]} if isinstance(k, tuple) else k
+
+
+def dec_key(k):
+    return tuple(dec_key(x) for x in k['tuple']) if isinstance(k, dict) and 'tuple' in k else k
+
+
+def enc_state(s):
+    """JSON image of a (mem, A, S) state: maps as lists of [key, value] with tuple keys spelled out"""
+    return {c: (None if s[c] is None else [[enc_key(k), v] for k, v in s[c].items()]) for c in ('mem', 'A', 'S')}
+
+
+def dec_state(j):
+    return {c: (None if j[c] is None else {dec_key(k): v for k, v in j[c]}) for c in ('mem', 'A', 'S')}
+
+
+def enc_args(args):
+    return [({'dict': [[enc_key(k), v] for k, v in a.items()]} if isinstance(a, dict) else enc_key(a)) for a in args]
+
+
+def dec_args(args):
+    return tuple(({dec_key(k): v for k, v in a['dict']} if isinstance(a, dict) and 'dict' in a else dec_key(a)) for a in args)
 
 
 def judge(op, args, pre, post, out, exc):
